@@ -465,8 +465,42 @@ def ops_cont(rng):
     return o
 
 
+def ops_defaults(rng):
+    """calls that leave trailing arguments to their defaults (a changed default value shows only here)"""
+    o = []
+    n = rng.choice([2, 3, 4, 5, 8, 13]) if rng.random() < 0.95 else rng.choice([0, 1])
+    kind = rng.choice(["ints", "reals", "tiny"])
+    a = values(rng, n, kind)
+    b = values(rng, n, kind)
+    w = weights(rng, n if rng.random() < 0.9 else length(rng))
+    o.append("dcov %s ; %s" % (vec(a), vec(b)))
+    o.append("dvar " + vec(a))
+    o.append("dsd " + vec(a))
+    o.append("dmeanw %s ; %s" % (vec(a), vec(w)))
+    o.append("dcenterw %s ; %s" % (vec(a), vec(w)))
+    o.append("dcorw %s ; %s ; %s" % (vec(a), vec(b), vec(w)))
+    o.append("dcovw %s ; %s ; %s" % (vec(a), vec(b), vec(w)))
+    o.append("dvarw %s ; %s" % (vec(a), vec(w)))
+    o.append("dsdw %s ; %s" % (vec(a), vec(w)))
+    for u in "01":
+        o.append("dcovw1 %s %s ; %s ; %s" % (u, vec(a), vec(b), vec(w)))
+        o.append("dvarw1 %s %s ; %s" % (u, vec(a), vec(w)))
+        o.append("dsdw1 %s %s ; %s" % (u, vec(a), vec(w)))
+    o.append("dshannon " + vec(one(rng, ["prob", "unit", "pos"])))
+    o.append("dshannondisc " + vec(one(rng, ["tiny", "tiny", "ints"])))
+    k = rng.choice(["tiny", "ints"])
+    x, y = pair(rng, [k])
+    o.append("dmidisc %s ; %s" % (vec(x), vec(y)))
+    if rng.random() < 0.3:
+        m = rng.randint(3, 12)
+        v = [rng.gauss(0, 1) for _ in range(m)]
+        o.append("dshannoncont " + vec(v))
+        o.append("dmicont %s ; %s" % (vec(v), vec([0.5 * x + rng.gauss(0, 1) for x in v])))
+    return o
+
+
 GROUPS = [ops_arith, ops_reduce, ops_extrema, ops_moments, ops_sets, ops_log, ops_fdr,
-          ops_options, ops_lists, ops_sets2, ops_misc, ops_cont]
+          ops_options, ops_lists, ops_sets2, ops_misc, ops_cont, ops_defaults]
 
 
 def generate(seed, tier):
@@ -485,6 +519,8 @@ RELATIONAL = ("order", "fdr")
 def compare(op_line, impl, model):
     """bit-exact equality, except for the two routines whose answer depends on the order in which
     std::sort leaves equal keys: there the predicate (order_sorted_perm / fdr_spec) decides."""
+    if impl.strip() == "bad-op" or model.strip() == "bad-op":
+        return False                       # an operation one side does not know is never "agreement"
     if " ".join(impl.split()) == " ".join(model.split()):
         return True
     name = op_line.split()[0]
